@@ -25,6 +25,9 @@ where
     <Self as Encoding>::Repr: Default,
 {
     fn decode(rlp: &Rlp<'_>) -> Result<Self, DecoderError> {
+        // `decode_value` accepts the long-form length prefix for short payloads;
+        // `payload_info` rejects such non-canonical headers.
+        rlp.payload_info()?;
         rlp.decoder().decode_value(|bytes| {
             if bytes.first().cloned() == Some(0) {
                 Err(DecoderError::RlpInvalidIndirection)
